@@ -74,6 +74,10 @@ func buildCalls(seed uint64, env *psEnv) []callSpec {
 		g := &g3{rng: rng, feat: map[string]bool{}, maxD: 2}
 		progs = append(progs, ref.RenderTokens(g.body(0, 0)))
 	}
+	// runs ending by the budget, by the limits, and inside eexec sections (their error texts are part of the result)
+	progs = append(progs, "{ } loop", "1 2 add\n\n{ } loop", "/p { p 1 } def p", "{ 1 } loop", "{ 1 dict begin } loop",
+		"currentfile eexec\n"+hexSection("/x 1 def 1 (a) add "), "currentfile eexec\n"+hexSection("/x 1 def currentfile closefile\n")+"\n/y 2 def x y add",
+		"/x (plain text after other runs) def x length")
 	progs = append(progs, "1 2 add", "StandardEncoding 65 get", "/CIDInit /ProcSet findresource length", "errordict length", "systemdict /add known",
 		"[ 1 2 3 ] { 2 mul } forall", "/x { 1 (a) add } def x", "FontDirectory length", "(abc) dup 0 get exch length")
 	for i, p := range progs {
@@ -312,6 +316,15 @@ func hostilePrograms(rng *rand.Rand) []string {
 			out = append(out, v[rng.IntN(len(v))])
 		}
 	}
+	// programs that fail inside an eexec section, and runs that end by the budget
+	out = append(out,
+		"currentfile eexec\n"+hexSection("/x 1 def 1 (a) add "),
+		"currentfile eexec\n"+hexSection("{ } loop "),
+		"3 dict begin currentfile eexec\n"+hexSection("/y 2 def nosuchname ")+"\n/after 1 def",
+		"currentfile eexec\nzz not hex at all",
+		"currentfile eexec\n"+string(ref.Encrypt([]byte("\x00\x00\x00\x001 (a) add "), 55665, nil)),
+		"{ } loop", "/p { p } def p", "{ 1 } loop",
+		"%%Title: x\n{ } loop\n\n\n{ } loop")
 	out = append(out, "matrix dup 0 42 put dup 5 /oops put", "6 array matrix copy dup 0 7 put pop matrix dup 0 9 put")
 	// append a failure half-way to some of them
 	for i := range out {
